@@ -349,6 +349,8 @@ type FuncSpec struct {
 	Line     int
 	Guarded  []string
 	Reveals  []*SExpr
+	InlineCalls []string // callees executed from their bodies (with this function's unroll bound) although they have contracts
+	UnrollComplete bool
 	Unroll   int // default unroll for all loops of the function (bounded mode)
 }
 
@@ -374,7 +376,7 @@ type Contracts struct {
 	Globals map[string]string
 }
 
-var clauseKw = regexp.MustCompile(`^(requires|ensures|modifies|loop|end|inline|trusted|pure-effects|noalloc|unroll|reveal)\b`)
+var clauseKw = regexp.MustCompile(`^(requires|ensures|modifies|loop|end|inline-calls|inline|trusted|pure-effects|noalloc|unroll|reveal)\b`)
 var labelRe = regexp.MustCompile(`^([A-Za-z_][A-Za-z0-9_]*)\s*(\[[A-Z0-9, ]*\])?\s*:\s*(.*)$`)
 
 func parseTags(s string) []string {
@@ -598,7 +600,15 @@ func (cs *Contracts) parseFile(pkg, file, data string) {
 		case s == "noalloc":
 			cur.NoAlloc = true
 		case strings.HasPrefix(s, "unroll "):
-			fmt.Sscan(strings.Fields(s)[1], &cur.Unroll)
+			f := strings.Fields(s)
+			fmt.Sscan(f[1], &cur.Unroll)
+			cur.UnrollComplete = len(f) > 2 && f[2] == "complete"
+		case strings.HasPrefix(s, "inline-calls "):
+			for _, f := range strings.Split(s[len("inline-calls "):], ",") {
+				if f = strings.TrimSpace(f); f != "" {
+					cur.InlineCalls = append(cur.InlineCalls, f)
+				}
+			}
 		default:
 			panic(fmt.Sprintf("%s:%d: unknown clause: %s", file, l.n, s))
 		}
